@@ -69,6 +69,7 @@ func runC15(c *ctx) {
 			c15E2E(c, sup, nds)
 		}
 	}
+	c15E2ERds(c)
 	g := &c08gen{r: r}
 	n := 1200 * c.budget
 	for i := 0; i < n; i++ {
@@ -228,6 +229,97 @@ func runC15(c *ctx) {
 
 // c15E2E drives the real manager: the middleware's listener lookup subscribes, the control plane
 // answers with a listener set that does or does not contain the listener.
+// c15E2ERds: one middleware instance, one destination whose listener names a route table; the table is delivered,
+// then a malformed version of it is pushed (a route without action in front of a valid one: the response is rejected,
+// nothing changes), then a new valid version. Every call is decided by the table in force when it is made, and a
+// rejected table can never make the routing step panic.
+func c15E2ERds(c *ctx) {
+	w, err := newWorld(worldOpts{ndsNotRequired: true, fetchTimeout: 300 * time.Millisecond})
+	if err != nil {
+		fmt.Println("C15 e2e:", err)
+		return
+	}
+	defer w.close()
+	useBackend(w.m)
+	svc := "svc-rds"
+	mw := xdssuite.NewXDSRouterMiddleware()
+	nextCalls := 0
+	ep := mw(func(ctx context.Context, req, resp interface{}) error { nextCalls++; return nil })
+	table := func(version int, malformedFirst bool) *anypb.Any {
+		var routes []*v3routepb.Route
+		if malformedFirst {
+			routes = append(routes, &v3routepb.Route{Match: &v3routepb.RouteMatch{PathSpecifier: &v3routepb.RouteMatch_Prefix{Prefix: "/"}}})
+		}
+		routes = append(routes, &v3routepb.Route{
+			Match: &v3routepb.RouteMatch{PathSpecifier: &v3routepb.RouteMatch_Prefix{Prefix: "/"}},
+			Action: &v3routepb.Route_Route{Route: &v3routepb.RouteAction{
+				ClusterSpecifier: &v3routepb.RouteAction_Cluster{Cluster: fmt.Sprintf("c-v%d", version)},
+				Timeout:          durationpb.New(time.Duration(100+10*version) * time.Millisecond)}}})
+		return mustAny(&v3routepb.RouteConfiguration{Name: "rc-e2e", VirtualHosts: []*v3routepb.VirtualHost{{Name: "vh", Routes: routes}}})
+	}
+	waitSub := func(rt xdsresource.ResourceType, n string) {
+		w.waitFor(func() bool {
+			for _, x := range w.m.VerifInterest()[rt] {
+				if x == n {
+					return true
+				}
+			}
+			return false
+		}, 2*time.Second)
+		w.settle()
+	}
+	var calls []interface{}
+	call := func(wantCluster string, wantMs int, during func()) {
+		ri := newRI(svc, "m1", "", false)
+		ctx := rpcinfo.NewCtxWithRPCInfo(context.Background(), ri)
+		before := nextCalls
+		done := make(chan struct{})
+		var p bool
+		var pmsg string
+		var cerr error
+		go func() {
+			p, pmsg = recoverTo(func() { cerr = ep(ctx, nil, nil) })
+			close(done)
+		}()
+		if during != nil {
+			during()
+		}
+		o := obj{}
+		select {
+		case <-done:
+			o = callState(ri)
+			o["panic"], o["panicMsg"], o["next"] = p, pmsg, nextCalls-before
+			o["err"] = ""
+			if cerr != nil {
+				if errors.Is(cerr, kerrors.ErrRoute) {
+					o["err"] = "route"
+				} else {
+					o["err"] = "other:" + cerr.Error()
+				}
+			}
+		case <-time.After(5 * time.Second):
+			o = obj{"panic": false, "err": "hang", "next": nextCalls - before}
+		}
+		var want interface{}
+		if wantCluster != "" {
+			want = obj{"cluster": wantCluster, "timeoutMs": wantMs}
+		}
+		calls = append(calls, obj{"want": want, "obs": o})
+	}
+	call("c-v1", 110, func() {
+		waitSub(xdsresource.ListenerType, svc)
+		w.push(mkResp(xdsresource.ListenerTypeURL, "l1", "ln1", []*anypb.Any{anyListenerRDS(xdsresource.ReservedLdsResourceName, inboundStamp), anyListenerRDS(svc, "rc-e2e")}))
+		waitSub(xdsresource.RouteConfigType, "rc-e2e")
+		w.push(mkResp(xdsresource.RouteTypeURL, "r1", "rn1", []*anypb.Any{table(1, false)}))
+	})
+	w.push(mkResp(xdsresource.RouteTypeURL, "r2", "rn2", []*anypb.Any{table(2, true)}))
+	call("c-v1", 110, nil)
+	w.push(mkResp(xdsresource.RouteTypeURL, "r3", "rn3", []*anypb.Any{table(3, false)}))
+	call("c-v3", 130, nil)
+	c.count("e2e-rds", 1)
+	c.emit(obj{"op": "e2e-rds", "calls": calls})
+}
+
 func c15E2E(c *ctx, supplied bool, ndsNotRequired bool) {
 	w, err := newWorld(worldOpts{ndsNotRequired: ndsNotRequired, fetchTimeout: 300 * time.Millisecond})
 	if err != nil {
